@@ -366,8 +366,10 @@ def encode_for_model(seq, docs=None):
     return " ".join(out)
 
 
-def run_sequence(root, docs, seq):
-    """drive the real binary; returns observations"""
+def run_sequence(root, docs, seq, offers=None):
+    """drive the real binary; returns observations.  offers: the position encodings the editor offers at initialize
+    (LSP 3.17 general.positionEncodings); the sequences count columns in UTF-16, so a session in which the server
+    announces another encoding is skipped (obs['skipped'])"""
     os.makedirs(root + "/src", exist_ok=True)
     os.makedirs(root + "/free", exist_ok=True)
     open(root + "/gleam.toml", "w").write('name = "p"\n')
@@ -376,9 +378,12 @@ def run_sequence(root, docs, seq):
     c = lsp.Lsp(root)
     obs = {"alive": True, "responses": {}, "died_at": None, "texts": {}, "dups": []}
     try:
-        if c.initialize() is None:
+        if c.initialize(position_encodings=offers) is None:
             obs["alive"] = False
             obs["died_at"] = "initialize"
+            return obs
+        if c.position_encoding != "utf-16":
+            obs["skipped"] = "the server announced " + str(c.position_encoding)
             return obs
         pending = []
         for n, op in enumerate(seq):
@@ -395,6 +400,11 @@ def run_sequence(root, docs, seq):
                             cc[-1]["rangeLength"] = r[4]
                 c.notify("textDocument/didChange", {"textDocument": {"uri": op[1].uri, "version": n + 2}, "contentChanges": cc})
             elif op[0] == "close":
+                c.notify("textDocument/didClose", {"textDocument": {"uri": op[1].uri}})
+            elif op[0] == "openclose":
+                # opened and closed again at once (a preview, a peek, go-to-definition and back): whatever the open started is
+                # still running when the close arrives
+                c.notify("textDocument/didOpen", {"textDocument": {"uri": op[1].uri, "languageId": "gleam", "version": 1, "text": op[2]}})
                 c.notify("textDocument/didClose", {"textDocument": {"uri": op[1].uri}})
             elif op[0] == "xreq":
                 params = dict(op[3]); params["textDocument"] = {"uri": op[1].uri}
@@ -568,6 +578,12 @@ def run_vanish_sessions(res, tier, seed):
             later.append(("change", a, [((1, 0, 1, 2), "", "valid")]))
             later.append(("req", fresh, "textDocument/hover", 0, 8, 950 + i))
         seq += later
+        if i % 4 == 1:
+            # previews: documents opened and closed again at once, some of them big enough for their analysis to outlast the close
+            big = "".join(f"pub fn f{j}(a: Int, b: Int) {{\n  let c = a + b * {j}\n  [c, a, b]\n}}\n\n" for j in range(rng.choice([1, 40, 400])))
+            for d in (docs[0], docs[1], fresh if not want_fresh else docs[2]):
+                seq.append(("openclose", d, big + "pub fn last() { 1 }\n"))
+            seq.append(("req", docs[0], "textDocument/hover", 0, 8, 970 + i))
         jobs.append((root, docs, seq, {"f7": tb} if want_fresh else {}))
     try:
         observations = common.parallel_map(lambda j: run_sequence(j[0], j[1], j[2]), jobs, workers=min(common.NCPU, 8))
@@ -578,8 +594,13 @@ def run_vanish_sessions(res, tier, seed):
         res.cov["evaluations"] += len(seq)
         replay = {"sequence": [describe(op) for op in seq], "observation": {k: v for k, v in obs.items() if k != "texts"}, "texts": obs.get("texts")}
         if not obs["alive"]:
-            res.add_violation("C15/server-died/change-after-file-vanished", f"the server process ended after message {obs['died_at']} of a session in which a closed "
-                              f"document's file vanished and another change for it arrived: {obs.get('stderr', '')[-200:]}", replay)
+            kind = seq[obs["died_at"]][0] if isinstance(obs["died_at"], int) and obs["died_at"] < len(seq) else "initialize"
+            if any(op[0] == "openclose" for op in seq[: (obs["died_at"] + 1) if isinstance(obs["died_at"], int) else 0]):
+                res.add_violation("C15/server-died/opened-and-closed-at-once", f"the server process ended after message {obs['died_at']} ({kind}) of a session in which documents "
+                                  f"were opened and closed again at once: {obs.get('stderr', '')[-200:]}", replay)
+            else:
+                res.add_violation("C15/server-died/change-after-file-vanished", f"the server process ended after message {obs['died_at']} ({kind}) of a session in which a closed "
+                                  f"document's file vanished and another change for it arrived: {obs.get('stderr', '')[-200:]}", replay)
             continue
         for rid, v in obs["responses"].items():
             if v is None:
@@ -671,17 +692,24 @@ def run_c13_blackbox(res, tier, seed):
                 cur = new
             if changes:
                 seq.append(("change", d, changes))
-        jobs.append((root, docs, seq, cur))
+        # what the editor offers as position encodings: nothing (a client older than LSP 3.17), UTF-16 only, UTF-16 preferred
+        # over others: in all of them the editor ends up counting in UTF-16 unless the server announces something else
+        offers = rng.choice([None, None, ["utf-16"], ["utf-16", "utf-8"], ["utf-16", "utf-32", "utf-8"], ["utf-32", "utf-16"]])
+        jobs.append((root, docs, seq, cur, offers))
     try:
-        observations = common.parallel_map(lambda j: run_sequence(j[0], j[1], j[2]), jobs, workers=min(common.NCPU, 12))
+        observations = common.parallel_map(lambda j: run_sequence(j[0], j[1], j[2], j[4]), jobs, workers=min(common.NCPU, 12))
     finally:
         shutil.rmtree(base, ignore_errors=True)
     multi = 0
-    for (root, docs, seq, cur), obs in zip(jobs, observations):
+    skipped = 0
+    for (root, docs, seq, cur, offers), obs in zip(jobs, observations):
+        if obs.get("skipped"):
+            skipped += 1
+            continue
         res.cov["evaluations"] += len(seq)
         if any(op[0] == "change" and len(op[2]) >= 2 for op in seq):
             multi += 1
-        replay = {"sequence": [describe(op) for op in seq], "observation": {k: v for k, v in obs.items() if k != "texts"}, "texts": obs.get("texts")}
+        replay = {"sequence": [describe(op) for op in seq], "offered_position_encodings": offers, "observation": {k: v for k, v in obs.items() if k != "texts"}, "texts": obs.get("texts")}
         if not obs["alive"]:
             res.add_violation("C13/server-died-on-valid-edits", f"the server ended after message {obs['died_at']}", replay)
             continue
@@ -690,10 +718,13 @@ def run_c13_blackbox(res, tier, seed):
         if got != exp:
             res.add_violation("C13/blackbox-text-diverged", f"after valid edits the server analyses {got!r}, the editor holds {exp!r}", replay)
     res.cov["blackbox_sequences"] = n_seq
+    res.cov["blackbox_skipped_other_encoding"] = skipped
     res.cov["blackbox_multi_change_notifications"] = multi
 
 
 def describe(op):
+    if op[0] == "openclose":
+        return f"didOpen {op[1].key} {op[2]!r} immediately followed by didClose {op[1].key}"
     if op[0] == "open":
         return f"didOpen {op[1].key} {op[2]!r}"
     if op[0] == "change":
